@@ -296,8 +296,8 @@ def nontrivial(ops, out):
 
 def judge(ops, out):
     """Spec-level monitor on the implementation's own output, independent of Lean:
-    whenever the pre-existing files were created oldest-first and nobody touched the
-    directory afterwards, `view` (backups oldest..newest ++ live) must list consecutive
+    whenever the pre-existing files were created oldest-first, nobody touched the
+    directory afterwards and the number of backups kept stayed the same, `view` (backups oldest..newest ++ live) must list consecutive
     line ids and end with the newest line written; no file may be CORRUPT (a split line);
     no time-rotated line may be lost / split / land in several files."""
     ordered = True
@@ -305,6 +305,8 @@ def judge(ops, out):
     last_pre = None
     created = 0
     last_written = None
+    keep = None
+    zero_limit = False
     for op, line in zip(ops, out):
         t = op.split()
         if "CORRUPT" in line:
@@ -315,12 +317,20 @@ def judge(ops, out):
             if started:
                 ordered = False
             idx = 10 ** 6 if t[1] == "L" else -int(t[1])
+            if t[1] == "0":
+                ordered = False         # app.log.0 is not part of the chain
             if last_pre is not None and idx < last_pre:
                 ordered = False
             last_pre = idx
             created += len(t) - 2
         elif t[0] == "rinit" and line.startswith("ok"):
             started = True
+            k = max(int(t[2]), 1)
+            if keep is not None and keep != k:
+                ordered = False         # backup_count changed: stale higher-numbered files may remain
+            keep = k
+            if int(t[1]) == 0:
+                zero_limit = True       # max_bytes 0 (outside the property): empty files are rotated too
         elif t[0] in ("w", "tw") and line not in ("closed", "bad-op"):
             last_written = created
             created += 1
@@ -330,7 +340,7 @@ def judge(ops, out):
             for a, b in zip(ids, ids[1:]):
                 if b != a + 1:
                     return "view is not contiguous: " + line[:200]
-            if last_written is not None and (not ids or ids[-1] != last_written):
+            if last_written is not None and not zero_limit and (not ids or ids[-1] != last_written):
                 return "newest line %d missing from view: %s" % (last_written, line[:200])
     return None
 
